@@ -86,6 +86,7 @@ type Exec struct {
 	inputs []ModelTerm
 	pcNow  string
 	disabledAuto map[string]bool
+	locals []localObj
 }
 
 func newExec(L *Loader, fn *ssa.Function, spec *FuncSpec) *Exec {
@@ -130,6 +131,12 @@ func (e *Exec) assume(c string) {
 }
 
 func (e *Exec) flag(s string) { e.flags[s] = true }
+
+// defArray defines the array constant name pointwise: name[idx] = body (idx ranges over BV64).
+// The line is rendered per solver: a lambda equality for z3, a patterned quantifier for cvc5.
+func (e *Exec) defArray(name, idx, body string) {
+	e.emit(";@defarr " + name + " " + idx + " " + body)
+}
 
 func (e *Exec) prelude() {
 	e.emit("(set-option :produce-models true)")
@@ -196,12 +203,110 @@ func (e *Exec) havocAll(st *State) {
 			keep[k] = e.heapGet(st, k, srt)
 		}
 	}
+	// objects allocated by this function that provably never escape it keep their contents
+	type kept struct{ pc, key, srt, ref, old string }
+	var ks []kept
+	for _, o := range e.locals {
+		for _, k := range o.keys {
+			if srt, ok := e.keySort[k]; ok {
+				ks = append(ks, kept{o.pc, k, srt, o.ref, sel(e.heapGet(st, k, srt), o.ref)})
+			}
+		}
+	}
 	e.ngen++
 	st.gen = e.ngen
 	st.heap = keep
 	na := e.fresh("alloc", sRef)
 	e.assume(app(">=", na, st.alloc))
 	st.alloc = na
+	for _, k := range ks {
+		e.assume(mkImp(k.pc, mkEq(sel(e.heapGet(st, k.key, k.srt), k.ref), k.old)))
+	}
+}
+
+type localObj struct {
+	ref, pc string
+	keys    []string
+}
+
+// registerLocal records a freshly allocated object that does not escape the function.
+func (e *Exec) registerLocal(ref, pc string, keys []string) {
+	e.locals = append(e.locals, localObj{ref: ref, pc: pc, keys: keys})
+}
+
+// nonEscaping: the object created by v (MakeSlice or Alloc) is only ever indexed, sliced,
+// measured or copied into/out of inside this function: no call, closure or heap cell sees it.
+func nonEscaping(v ssa.Value, depth int) bool {
+	if depth > 6 {
+		return false
+	}
+	refs := v.Referrers()
+	if refs == nil {
+		return false
+	}
+	for _, r := range *refs {
+		switch x := r.(type) {
+		case *ssa.DebugRef, *ssa.Range:
+		case *ssa.IndexAddr:
+			if x.X != v {
+				return false
+			}
+			if ir := x.Referrers(); ir != nil {
+				for _, u := range *ir {
+					switch y := u.(type) {
+					case *ssa.UnOp, *ssa.DebugRef:
+					case *ssa.Store:
+						if y.Addr != ssa.Value(x) {
+							return false
+						}
+					default:
+						return false
+					}
+				}
+			}
+		case *ssa.FieldAddr:
+			if ir := x.Referrers(); ir != nil {
+				for _, u := range *ir {
+					switch y := u.(type) {
+					case *ssa.UnOp, *ssa.DebugRef:
+					case *ssa.Store:
+						if y.Addr != ssa.Value(x) {
+							return false
+						}
+					default:
+						return false
+					}
+				}
+			}
+		case *ssa.UnOp:
+			// load of the whole object (by value)
+		case *ssa.Store:
+			if x.Addr != v {
+				return false
+			}
+		case *ssa.Slice:
+			if !nonEscaping(x, depth+1) {
+				return false
+			}
+		case *ssa.Phi:
+			if !nonEscaping(x, depth+1) {
+				return false
+			}
+		case *ssa.Call:
+			b, ok := x.Call.Value.(*ssa.Builtin)
+			if !ok {
+				return false
+			}
+			switch b.Name() {
+			case "len", "cap", "copy":
+			default:
+				return false
+			}
+		default:
+			return false
+		}
+	}
+	return true
 }
 
 func (e *Exec) mergeStates(conds []string, states []*State) *State {
